@@ -72,7 +72,7 @@ def run_with_fault(name, fault, watchdog=5):
     import types
     import mosaik
     from contracts.determinism_native import SCENARIOS, UNTIL
-    sims, conns, groups = SCENARIOS[name]
+    sims, conns, groups = SCENARIOS[name][:3]
     log = []
     mod = types.ModuleType("_c14_sims")
     cfg = {}
@@ -132,7 +132,7 @@ def run_remote(name, remote_role, fault, watchdog=8):
     import types
     import mosaik
     from contracts.determinism_native import SCENARIOS, UNTIL
-    sims, conns, groups = SCENARIOS[name]
+    sims, conns, groups = SCENARIOS[name][:3]
     log = []
     none = {"role": None, "method": None, "index": None, "kind": None}
     mod = types.ModuleType("_c14_sims")
